@@ -715,9 +715,9 @@ func FunctionMap() map[string]physical.FunctionDetails {
 					OutputType:    octosql.String,
 					Strict:        true,
 					Function: func(values []octosql.Value) (octosql.Value, error) {
-						out := make([]rune, len(values[0].Str))
-						for i, ch := range values[0].Str {
-							out[len(out)-i-1] = ch
+						out := []rune(values[0].Str)
+						for i, j := 0, len(out)-1; i < j; i, j = i+1, j-1 {
+							out[i], out[j] = out[j], out[i]
 						}
 						return octosql.NewString(string(out)), nil
 					},
